@@ -162,7 +162,7 @@ def run(ch, ctx):
         bias['variants'] = EXHAUST
         bias['min_players'] = 5
     cfg = gen_config(ch, bias)
-    family_draw = cfg['variant'] in ('N2L1D', 'F2L3D', 'FB', 'X5D', 'XA5')
+    family_draw = cfg['variant'] in ('N2L1D', 'F2L3D', 'FB', 'X5D', 'XA5', 'XDM')
     dealer = ch.choice('c06.dealer', ('engine', 'explicit', 'counted', 'hidden', 'explicit'))
     if dealer == 'hidden':
         v = cfg['variant']
